@@ -1,0 +1,130 @@
+//go:build verif
+
+package server
+
+import (
+	"fmt"
+	"sort"
+
+	"github.com/tidwall/resp"
+	"github.com/tidwall/tile38/internal/collection"
+)
+
+// verifCommand implements the commands that exist only in builds with the
+// "verif" tag. VERIFAUDIT walks the internal structures and returns one bulk
+// string per inconsistency (an empty array when everything agrees). It is
+// dispatched under the shared lock like any unknown/read command.
+func (s *Server) verifCommand(msg *Message) (res resp.Value, err error, ok bool) {
+	if msg.Command() != "verifaudit" {
+		return res, nil, false
+	}
+	var out []string
+	bad := func(f string, a ...interface{}) {
+		if len(out) < 50 {
+			out = append(out, fmt.Sprintf(f, a...))
+		}
+	}
+	s.cols.Scan(func(key string, col *collection.Collection) bool {
+		if col.Count() == 0 {
+			bad("collection %q is empty but still present", key)
+		}
+		for _, p := range col.VerifAudit() {
+			bad("collection %q: %s", key, p)
+		}
+		return true
+	})
+	// hooks
+	var nout, ntree, ncross, nexp int
+	s.hooks.Ascend(nil, func(v interface{}) bool {
+		h := v.(*Hook)
+		wantOut := h.Fence.detect == nil || h.Fence.detect["outside"]
+		if wantOut {
+			nout++
+			if got, _ := s.hooksOut.Get(h).(*Hook); got != h {
+				bad("hook %q detects outside but is missing from hooksOut", h.Name)
+			}
+		}
+		if h.Fence != nil && h.Fence.obj != nil {
+			ntree++
+			rect := h.Fence.obj.Rect()
+			find := func(tr interface {
+				Search(min, max [2]float64, iter func(min, max [2]float64, data interface{}) bool)
+			}) bool {
+				found := false
+				tr.Search([2]float64{rect.Min.X, rect.Min.Y}, [2]float64{rect.Max.X, rect.Max.Y},
+					func(_, _ [2]float64, data interface{}) bool {
+						if data.(*Hook) == h {
+							found = true
+							return false
+						}
+						return true
+					})
+				return found
+			}
+			if !find(s.hookTree) {
+				bad("hook %q is missing from hookTree", h.Name)
+			}
+			if h.Fence.detect["cross"] {
+				ncross++
+				if !find(s.hookCross) {
+					bad("hook %q detects cross but is missing from hookCross", h.Name)
+				}
+			}
+		}
+		if !h.expires.IsZero() {
+			nexp++
+			if got, _ := s.hookExpires.Get(h).(*Hook); got != h {
+				bad("hook %q has a deadline but is missing from hookExpires", h.Name)
+			}
+		}
+		return true
+	})
+	if s.hooksOut.Len() != nout {
+		bad("hooksOut holds %d hooks, %d expected", s.hooksOut.Len(), nout)
+	}
+	if s.hookTree.Len() != ntree {
+		bad("hookTree holds %d hooks, %d expected", s.hookTree.Len(), ntree)
+	}
+	if s.hookCross.Len() != ncross {
+		bad("hookCross holds %d hooks, %d expected", s.hookCross.Len(), ncross)
+	}
+	if s.hookExpires.Len() != nexp {
+		bad("hookExpires holds %d hooks, %d expected", s.hookExpires.Len(), nexp)
+	}
+	// groups: both trees hold the same items; each refers to a live hook and
+	// a live object
+	if s.groupHooks.Len() != s.groupObjects.Len() {
+		bad("groupHooks holds %d items, groupObjects %d", s.groupHooks.Len(), s.groupObjects.Len())
+	}
+	s.groupHooks.Ascend(nil, func(v interface{}) bool {
+		g := v.(*groupItem)
+		if got, _ := s.groupObjects.Get(g).(*groupItem); got != g {
+			bad("group item %s/%s/%s is missing from groupObjects", g.hookName, g.colKey, g.objID)
+		}
+		if s.hooks.Get(&Hook{Name: g.hookName}) == nil {
+			bad("group item refers to missing hook %q", g.hookName)
+		}
+		col, _ := s.cols.Get(g.colKey)
+		if col == nil || col.Get(g.objID) == nil {
+			bad("group item of hook %q refers to missing object %q/%q", g.hookName, g.colKey, g.objID)
+		}
+		return true
+	})
+	sort.Strings(out)
+	vals := make([]resp.Value, len(out))
+	for i, p := range out {
+		vals[i] = resp.StringValue(p)
+	}
+	if msg.OutputType == JSON {
+		js := `{"ok":true,"problems":[`
+		for i, p := range out {
+			if i > 0 {
+				js += ","
+			}
+			js += jsonString(p)
+		}
+		js += `]}`
+		return resp.StringValue(js), nil, true
+	}
+	return resp.ArrayValue(vals), nil, true
+}
